@@ -121,7 +121,15 @@ def load_histories() -> list:
         "X": b"\xff{",
     }
     n = 0
-    for pre in ({}, {1: Node(1, 18, "1.4", children={9: Child(9, 1)})}, {2: Node(2, 17, "2.0"), 77: Node(77, 17, "2.0")}):
+    pres = (
+        {},
+        {1: Node(1, 18, "1.4", children={9: Child(9, 1)})},
+        {2: Node(2, 17, "2.0"), 77: Node(77, 17, "2.0")},
+        # the registry already knows the file's nodes and children, with other / more / fewer values than the file
+        {1: Node(1, 17, "2.0", children={3: Child(3, 6, values={2: "off", 7: "extra"}), 4: Child(4, 3, values={1: "z"}), 1: Child(1, 38, values={49: "0,0,0", 50: "more"})})},
+        {1: Node(1, 17, "2.0", children={3: Child(3, 0, description="other", values={0: "21.5"}), 1: Child(1, 3)}, sleeping=True), 2: Node(2, 18, "1.5", children={5: Child(5, 1, values={1: "x"})})},
+    )
+    for pre in pres:
         for seq in itertools.product(sorted(docs), repeat=3):
             n += 1
             nodes = copy.deepcopy(pre)
@@ -137,6 +145,48 @@ def load_histories() -> list:
                               {"label": "history", "content_hex": None, "fail": None, "pre": sorted(pre), "seq": list(seq[: i + 1])}))
                 break
     return n, viols
+
+
+def concurrent_case(job) -> list:
+    """Two gateways of one process use the same file at the same time (load/load, load/save), file operations
+    completing in submission order; then the application starts a new event loop and they do it again.
+    Every load must succeed or raise PersistenceReadError."""
+    from aiomysensors.persistence import Persistence
+
+    from .. import fsshim
+    from ..vloop import VLoop
+
+    doc_name, second = job
+    docs = {"native": native_doc(), "invalid": b'{"1": {"node_id": 1}}', "empty": b"", "garbage": b"\xff{"}
+    viols = []
+    for rnd in range(3):
+        vfs = fsshim.VFS()
+        vfs.files[pers.PATH] = bytearray(docs[doc_name])
+        a = Persistence({}, pers.PATH)
+        b = Persistence({9: Node(9, 17, "2.0")}, pers.PATH)
+        loop = VLoop()
+        loop.enter()
+        try:
+            with fsshim.installed(vfs):
+                tasks = [("load", loop.create_task(a.load())), (second, loop.create_task(b.load() if second == "load" else b.save()))]
+                for _ in range(20000):
+                    if loop.ready_count():
+                        loop.step()
+                    elif loop.pending_jobs():
+                        loop.run_job(loop.pending_jobs()[0])
+                    else:
+                        break
+                for what, t in tasks:
+                    if not t.done():
+                        viols.append((f"C14|concurrent-{what}-never-finished", f"event loop #{rnd}: two gateways on one file ({doc_name}): a {what} did not finish", {"label": "concurrent", "content_hex": None, "fail": None, "job": list(job)}))
+                    elif what == "load" and not t.cancelled() and t.exception() is not None and not isinstance(t.exception(), PersistenceReadError):
+                        exc = t.exception()
+                        viols.append((f"C14|concurrent-foreign-exception:{type(exc).__name__}", f"event loop #{rnd} of the process: two gateways use one file ({doc_name}) at the same time (load and {second}): load raised {type(exc).__name__}: {str(exc)[:160]}", {"label": "concurrent", "content_hex": None, "fail": None, "job": list(job)}))
+        finally:
+            loop.shutdown()
+        if viols:
+            break
+    return viols
 
 
 def grammar(quick: bool) -> list:
@@ -252,6 +302,9 @@ def run(ctx: core.Ctx) -> core.Report:
     viols += [core.Violation(k, w, rep) for k, w, rep in special_cases()]
     nh, hv = load_histories()
     viols += [core.Violation(k, w, rep) for k, w, rep in hv]
+    cjobs = [(d, sec) for d in ("native", "invalid", "empty", "garbage") for sec in ("load", "save")]
+    for r in core.pmap(concurrent_case, cjobs, ctx.workers, chunksize=1):
+        viols += [core.Violation(k, w, rep) for k, w, rep in r]
     kinds = {}
     for label, _, _ in cs:
         kinds[label.split(":")[0]] = kinds.get(label.split(":")[0], 0) + 1
@@ -260,7 +313,7 @@ def run(ctx: core.Ctx) -> core.Report:
         "load_histories": nh,
         "distinct_nontrivial": len({c for _, c, _ in cs}),
         "by_kind": kinds,
-        "rule": "every byte prefix of three valid files (native, non-ASCII UTF-8, legacy pymysensors); every JSON path of those documents with the value replaced by each of 15 values / key deleted / renamed / unknown key added; every JSON value of a small grammar (depth 3) as whole document, node record and children map; raw undecodable bytes; OSError at open/read/close. Each content is loaded by the real Persistence.load through real aiofiles on the virtual loop; plus every sequence of 3 loads from 7 files by one Persistence object into a registry that is empty or already holds nodes. distinct_nontrivial = number of distinct file contents",
+        "rule": "every byte prefix of three valid files (native, non-ASCII UTF-8, legacy pymysensors); every JSON path of those documents with the value replaced by each of 15 values / key deleted / renamed / unknown key added; every JSON value of a small grammar (depth 3) as whole document, node record and children map; raw undecodable bytes; OSError at open/read/close. Each content is loaded by the real Persistence.load through real aiofiles on the virtual loop; plus every sequence of 3 loads from 7 files by one Persistence object into a registry that is empty or already holds nodes (other nodes, or the file's own nodes and children with other values); plus two gateways using one file at the same time (load/load, load/save) in three successive event loops of one process. distinct_nontrivial = number of distinct file contents",
         "exhaustive": True,
         "bounds": {"grammar_values": len(grammar(ctx.quick))},
         "samples": [cs[ctx.seed % len(cs)][0], cs[len(cs) // 2][0], cs[-20][0]],
@@ -269,7 +322,9 @@ def run(ctx: core.Ctx) -> core.Report:
 
 
 def replay(data: dict) -> dict:
-    if data.get("label") == "history":
+    if data.get("label") == "concurrent":
+        v = concurrent_case(tuple(data["job"]))
+    elif data.get("label") == "history":
         _, v = load_histories()
     elif data.get("content_hex") is None and data.get("label") in ("missing", "empty"):
         v = special_cases()
